@@ -482,6 +482,35 @@ pub fn gen_c10(run: &mut crate::Run, seed: u64, thorough: bool) {
             run.op(&format!("abi.dec {}", hx(&e)), "decode-invalid-utf8-name");
         }
     }
+    // messages of every SIZE class: byte fields of 4 000 … 70 000 bytes (well-formed messages far beyond any fixed buffer)
+    for n in [4000usize, 4096, 4097, 5000, 9000, 33000, 70000] {
+        let v: Vec<u8> = (0..n).map(|k| (k % 251) as u8 + 1).collect();
+        let msgs = vec![
+            M::T { tid: [4; 32], src: v.clone(), dst: vec![2], amount: 5, data: None },
+            M::T { tid: [4; 32], src: vec![1], dst: v.clone(), amount: 5, data: None },
+            M::T { tid: [4; 32], src: vec![1], dst: vec![2], amount: 5, data: Some(v.clone()) },
+            M::D { tid: [4; 32], name: vec![b'n'; n], symbol: b"S".to_vec(), decimals: 7, minter: Some(v.clone()) },
+        ];
+        for (k, m) in msgs.into_iter().enumerate() {
+            if n > 9000 && k > 1 {
+                continue;
+            }
+            for wrap in 0..3 {
+                let (enc_op, dec_op, tok) = match wrap {
+                    0 => ("abi.enc", "abi.dec", m.tok()),
+                    1 => ("abi.enc_hub", "abi.dec_hub", HM::S(b"ethereum".to_vec(), m.clone()).tok()),
+                    _ => ("abi.enc_hub", "abi.dec_hub", HM::R(b"ethereum".to_vec(), m.clone()).tok()),
+                };
+                let o = run.op(&format!("{enc_op} {tok}"), &format!("encode-large-{n}"));
+                if let Some(hexs) = o.strip_prefix("ok x") {
+                    run.op(&format!("{dec_op} {hexs}"), &format!("roundtrip-large-{n}"));
+                    let mut e = unhx(hexs);
+                    e.push(0);
+                    run.op(&format!("{dec_op} {}", hx(&e)), &format!("large-{n}-trailing-byte"));
+                }
+            }
+        }
+    }
     // VALID UTF-8 that a careless validity test might take for a sign of damage: the replacement character itself, NUL, a byte
     // order mark, the code points around the surrogate gap, the last code point, a four-byte sequence, combining marks
     for (k, good) in ["\u{FFFD}", "Wrapped \u{FFFD} Token", "\u{0}", "a\u{0}b", "\u{FEFF}T", "\u{D7FF}\u{E000}", "\u{10FFFF}", "\u{1F680}", "e\u{301}\u{301}", "\u{7F}\u{80}\u{7FF}\u{800}\u{FFFF}\u{10000}"].iter().enumerate() {
